@@ -1,5 +1,4 @@
 from dataclasses import dataclass, field
-import dataclasses
 from typing import Any
 import sigma.exceptions as sigma_exceptions
 from sigma.exceptions import SigmaRuleLocation, SigmaTypeError
@@ -56,11 +55,14 @@ class SigmaLogSource:
         )
 
     def to_dict(self) -> dict[str, Any]:
-        return {
-            field.name: str(value)
-            for field in dataclasses.fields(self)
-            if (value := self.__getattribute__(field.name)) is not None
+        d: dict[str, Any] = {
+            name: str(value)
+            for name in ("category", "product", "service", "definition")
+            if (value := self.__getattribute__(name)) is not None
         }
+        if self.custom_attributes:  # written back as the keys they were loaded from
+            d.update(self.custom_attributes)
+        return d
 
     def __contains__(self, other: "SigmaLogSource") -> bool:
         """
